@@ -196,28 +196,11 @@ def link_algebra(repo: Repo) -> RuleRun:
 link_algebra.rule_id = "C17.LINK-ALGEBRA"
 
 def affine_kinds(repo: Repo) -> RuleRun:
-    """Affine kind check (positions vs vectors): lengths are taken of vectors - differences of points,
-    directions - never of positions, whose norm depends on where the global origin is."""
-    from ..affine import norm_calls
+    """Affine kind check (positions vs vectors) over the whole package: lengths are taken of vectors - differences of
+    points, directions - never of positions, whose norm depends on where the global origin is."""
+    from ..affine import kinds_rule
 
-    r = RuleRun(PROP, "C17.AFFINE-KINDS", floor=20, what="norm() is applied to vectors (differences of points), never to positions")
-    undetermined = 0
-    for fn in sorted(repo.all_functions(), key=lambda f: f.qualname):
-        for call, kind, txt in norm_calls(repo, fn):
-            if kind == "V":
-                r.ok(fn, f"norm({txt}) of a vector", key=f"norm({txt})")
-            elif kind == "P":
-                r.bad(
-                    fn,
-                    f"{fn.qualname} takes the norm of the POSITION '{txt}' (distance from the global origin, not a distance between points): "
-                    "the result changes when the same geometry is placed elsewhere - e.g. default clamp bounds that are right only for a line starting at the origin",
-                    call,
-                    key=f"norm({txt})",
-                )
-            else:
-                undetermined += 1
-    r.note(f"{undetermined} norm() calls whose argument kind could not be determined from annotations are not judged")
-    return r
+    return kinds_rule(repo, PROP, "C17.AFFINE-KINDS", ("",), floor=20)
 
 
 affine_kinds.rule_id = "C17.AFFINE-KINDS"
